@@ -1101,7 +1101,8 @@ pub fn seal_ambiguity(m: &RefState) -> BTreeSet<String> {
     for tx in m.block_txs.values() {
         if let Some(k) = PoolKey::from_bytes(&tx.data) {
             let canonical = k.left().to_bytes() < k.right().to_bytes() && k.to_bytes() == tx.data;
-            if !canonical {
+            // (a name with two equal sides names no pool under any reading: such a transaction is simply not a request)
+            if !canonical && canon(&k).is_some() {
                 s.insert("non-canonical-pool-name".to_string());
             }
             if matches!(tx.kind, TxKind::Swap) && tx.outputs.first().map(|o| o.value.0 == 0).unwrap_or(false) {
